@@ -86,7 +86,9 @@ package openflow13
 //@ spec wf(i *InstrMeter) = (i.Type == 6) && i.Length == uint16(size(i))
 //@ spec typecode(i *InstrMeter) = 6
 //@ spec size(i *InstrActions) = 8 + sum(i.Actions)
-//@ spec wf(i *InstrActions) = allwf(i.Actions) && len(i.pad) <= 4 && (i.Type == 3 || i.Type == 4 || i.Type == 5) && i.Length == uint16(size(i))
+// The cached Length is NOT part of wf: an action may grow after it was added (ct.AddAction(nat) after
+// instr.AddAction(ct)), so the encoder has to re-establish it (C02: all sequences of builder calls).
+//@ spec wf(i *InstrActions) = allwf(i.Actions) && len(i.pad) <= 4 && (i.Type == 3 || i.Type == 4 || i.Type == 5)
 //@ spec typecode(i *InstrActions) = int(i.Type)
 
 //@ func (*InstrActions).Len(instr) (n)
@@ -95,6 +97,8 @@ package openflow13
 
 //@ func (*InstrActions).MarshalBinary(instr) (data, err)
 //@   ensures[C03] elemsat(data, 8, instr.Actions, len(instr.Actions), "tl")
+//@   ensures[C02 C13] @cachedlen: instr.Length == uint16(size(instr))
+//@   modifies instr.Length
 //@   loop 1:
 //@     invariant err == nil && len(data) == 8 + sum(instr.Actions, #k) && len(data) % 8 == 0 && be16(data, 0) == instr.Type && be16(data, 2) == instr.Length
 //@     invariant[C03] elemsat(data, 8, instr.Actions, #k, "tl")
@@ -266,7 +270,8 @@ package openflow13
 //@   modifies s.Header.Length
 
 //@ spec size(p *PacketOut) = 24 + sum(p.Actions) + ite(p.Data != nil, size(p.Data), 0)
-//@ spec wf(p *PacketOut) = allwf(p.Actions) && p.ActionsLen == uint16(sum(p.Actions)) && (p.Data != nil ==> wf(p.Data)) && p.Header.Version == 4 && p.Header.Type == 13
+// ActionsLen is a cache and NOT part of wf (an added action may grow afterwards): the encoder re-establishes it.
+//@ spec wf(p *PacketOut) = allwf(p.Actions) && (p.Data != nil ==> wf(p.Data)) && p.Header.Version == 4 && p.Header.Type == 13
 
 //@ func (*PacketOut).Len(p) (n)
 //@   loop 1:
@@ -276,8 +281,9 @@ package openflow13
 //@   ensures[C03] elemsat(data, 24, p.Actions, len(p.Actions), "tl")
 //@   ensures[C01] u8(data, 0) == 4 && u8(data, 1) == 13 && be16(data, 2) == uint16(len(data))
 //@   ensures[C13 C01] p.Header.Length == uint16(size(p))
+//@   ensures[C02 C03] @actionslen: be16(data, 16) == uint16(sum(p.Actions)) && p.ActionsLen == uint16(sum(p.Actions))
 //@   flag notrunc
-//@   modifies p.Header.Length
+//@   modifies p.Header.Length, p.ActionsLen
 //@   loop 1:
 //@     invariant err == nil && n == 24 + sum(p.Actions, #k) && u8(data, 0) == p.Header.Version && u8(data, 1) == p.Header.Type && be16(data, 2) == p.Header.Length
 //@     invariant[C03] elemsat(data, 24, p.Actions, #k, "tl")
@@ -462,13 +468,20 @@ package openflow13
 //@ spec typecode(a *NXActionConjunction) = 65535
 //@ spec nxsubtype(a *NXActionConjunction) = 34
 
-//@ spec size(a *NXActionConnTrack) = int(a.Length)
-//@ spec wf(a *NXActionConnTrack) = wf(a.NXActionHeader) && int(a.Length) == 24 + sum(a.actions) && allwf(a.actions) && len(a.pad) <= 3 && int(a.Subtype) == nxsubtype(a)
+// The cached Length is NOT part of wf or size: a nested nat action may grow after ct.AddAction(nat).
+//@ spec size(a *NXActionConnTrack) = 24 + sum(a.actions)
+//@ spec wf(a *NXActionConnTrack) = wf(a.NXActionHeader) && allwf(a.actions) && len(a.pad) <= 3 && int(a.Subtype) == nxsubtype(a)
 //@ spec typecode(a *NXActionConnTrack) = 65535
 //@ spec nxsubtype(a *NXActionConnTrack) = 35
 
+//@ func (*NXActionConnTrack).Len(a) (n)
+//@   loop 1:
+//@     invariant n == uint16(24 + sum(a.actions, #k))
+
 //@ func (*NXActionConnTrack).MarshalBinary(a) (data, err)
 //@   ensures[C03] elemsat(data, 24, a.actions, len(a.actions), "tl")
+//@   ensures[C02 C13] @cachedlen: int(a.Length) == size(a)
+//@   modifies a.Length
 //@   flag notrunc
 //@   loop 1:
 //@     invariant n == 24 + sum(a.actions, #k) && n % 8 == 0 && be16(data, 0) == a.Type && be16(data, 2) == a.Length && be32(data, 4) == a.Vendor && be16(data, 8) == a.Subtype
@@ -603,7 +616,7 @@ package openflow13
 // wfl(x): what Len() needs from its receiver (see util/zz_contracts_verif.go); kinds not listed need nothing
 //@ spec wfl(a *NXActionHeader) = a.ActionHeader != nil
 //@ spec wfl(a *NXActionConjunction) = wfl(a.NXActionHeader)
-//@ spec wfl(a *NXActionConnTrack) = wfl(a.NXActionHeader)
+//@ spec wfl(a *NXActionConnTrack) = wfl(a.NXActionHeader) && allwfl(a.actions)
 //@ spec wfl(a *NXActionRegLoad) = wfl(a.NXActionHeader)
 //@ spec wfl(a *NXActionRegMove) = wfl(a.NXActionHeader)
 //@ spec wfl(a *NXActionResubmit) = wfl(a.NXActionHeader)
